@@ -33,10 +33,10 @@ GROUPS = {
   "teq": ("one", "two", "off0"),
   "dfl": ("one", "all"),
   "tfl": ("fixed", "spatial"),
-  "hlim": ("lo", "hi", "margin", "out"),
+  "hlim": ("lo", "hi", "margin", "out", "narrow"),
   "slim": ("lo", "hi"),
   "blim": ("viol", "margin", "out"),
-  "tlim": ("lo", "hi", "margin", "sp_hi"),
+  "tlim": ("lo", "hi", "margin", "sp_hi", "narrow"),
   "con": ("c1w", "c3w", "c4w", "c6w", "c3bb", "c6bb", "margin", "gapout", "adh", "adhmargin", "adhgap"),
 }
 GROUP_ORDER = tuple(GROUPS)
@@ -157,7 +157,7 @@ def render(scn, probe=None):
     if "hlim" in feats:
       v = q[pat["H"]]
       o = feats["hlim"]
-      rng = {"lo": (v + 0.15, v + 1.0), "hi": (v - 1.0, v - 0.15), "margin": (v - 0.05, v + 1.0), "out": (v - 0.5, v + 0.5)}[o]
+      rng = {"lo": (v + 0.15, v + 1.0), "hi": (v - 1.0, v - 0.15), "margin": (v - 0.05, v + 1.0), "out": (v - 0.5, v + 0.5), "narrow": (v - 0.03, v + 0.04)}[o]
       extra = ' solimplimit="0.8 0.97 0.01 0.3 3"' if o == "hi" else ""
       add(pat["H"], f'limited="true" range="{rng[0]:.6f} {rng[1]:.6f}" margin="0.1"{extra}')
     if "slim" in feats:
@@ -193,7 +193,7 @@ def render(scn, probe=None):
       need_ts = True
     if probe is not None:
       L = probe["ten_length"][tn]
-      rng = {"lo": (L + 0.15, L + 1.0), "hi": (L - 1.0, L - 0.15), "margin": (L - 0.05, L + 1.0), "sp_hi": (0.0, max(L - 0.1, 0.01))}[o]
+      rng = {"lo": (L + 0.15, L + 1.0), "hi": (L - 1.0, L - 0.15), "margin": (L - 0.05, L + 1.0), "sp_hi": (0.0, max(L - 0.1, 0.01)), "narrow": (L - 0.03, L + 0.04)}[o]
       extra = ' solimplimit="0.85 0.99 0.02 0.4 2"' if o == "hi" else ""
       tendon_attr[tn] += f' limited="true" range="{rng[0]:.6f} {rng[1]:.6f}" margin="0.1"{extra}'
   tendons = ""
